@@ -179,7 +179,9 @@ def check(ctx, rep, rule):
             elif n.endswith('get_unchecked') and fpath in ('vm::VM::read_u8', 'vm::VM::read_u16', 'vm::VM::next'):
                 rep.good(rule, fpath, construct, 'class code-fetch: in bounds because every jump target/fall-through is an instruction inside the buffer (R02.4, R02.5, R02.1)', loc)
             elif fpath == 'vm::VM::pop' and (n.endswith('set_len') or n.endswith('::add') or n == 'core::ptr::read'):
-                rep.good(rule, fpath, construct, 'class unchecked-pop: the stack is non-empty because generated code is balanced (R02.3)', loc)
+                okf, whyf = frame_arith_ok(ctx)
+                rep.ob(okf, rule, fpath, construct, 'class unchecked-pop: the stack is non-empty because generated code is balanced per frame (R02.3) and frame bases '
+                       'never wrap (R12.4)%s' % ((': ' + whyf) if not okf else ''), loc)
             elif n in ('alloc::alloc::alloc', 'alloc::alloc::dealloc', 'core::ptr::drop_in_place'):
                 ok = fpath == 'object::allocate' or fpath.endswith('::destroy')
                 rep.ob(ok, rule, fpath, construct, 'class alloc/dealloc: only in object::allocate and the destroy functions (ownership rules: C03/C04)', loc)
@@ -249,3 +251,15 @@ def region_tag_check(F, fn, b, t, want):
             return False
         cur = p
     return False
+
+
+def frame_arith_ok(ctx):
+    key = '_frame_arith_ok'
+    if key not in ctx.__dict__:
+        from framework import Report
+        from rules import c12
+        tmp = Report('tmp', 'quick')
+        c12.check_frame_arith(ctx, tmp, 'R12.4')
+        bad = [o for o in tmp.obs if not o['ok'] and o['fn'] != 'vm::VM::pop']
+        ctx.__dict__[key] = (not bad, bad[0]['construct'] if bad else '')
+    return ctx.__dict__[key]
